@@ -81,18 +81,19 @@ def readU32 (inp : List UInt8) : Res (UInt32 × List UInt8) :=
 def readI64 (inp : List UInt8) : Res (Int × List UInt8) :=
   if inp.length < 8 then .err else .ok ((UInt64.ofNat (Wire.leVal (inp.take 8))).toInt64.toInt, inp.drop 8)
 
-/-- `f.Read(buf)` on a regular file whose unread content is `rest`: at the end of the file `(0, io.EOF)`; otherwise
+/-- `f.Read(buf)` on a file whose unread content is `rest`: at the end of the file `(0, io.EOF)`; otherwise
 between 1 and `min (len buf) (len rest)` bytes arrive — how many is up to the file system (the head of `sched`,
-clamped; everything that fits once the schedule is exhausted) — and land at the start of `buf`. Readers that return
-data together with `io.EOF`, or no data and no error for a non-empty buffer, are outside this model (os files and
-`fstest.MapFS` never do). Result: n, the buffer, the unread rest, the rest of the schedule, whether it was EOF. -/
-def readSome (rest : List UInt8) (sched : List Nat) (buf : List UInt8) :
+clamped; everything that fits once the schedule is exhausted) — and land at the start of `buf`. A reader may report
+the end of the file *together with* the last bytes (`eager`; `io.Reader` allows it, `os` files never do, an `fs.FS`
+may) or only by the next call. Readers that return nothing without an error for a non-empty buffer are outside this
+model. Result: n, the buffer, the unread rest, the rest of the schedule, whether `err == io.EOF`. -/
+def readSome (rest : List UInt8) (sched : List Nat) (buf : List UInt8) (eager : Bool) :
     Res (Int × List UInt8 × List UInt8 × List Nat × Bool) :=
   if rest = [] then .ok (0, buf, rest, sched, true)
   else
     let cap := min buf.length rest.length
     let n := min (max (sched.headD cap) 1) cap
-    .ok ((n : Int), rest.take n ++ buf.drop n, rest.drop n, sched.tail, false)
+    .ok ((n : Int), rest.take n ++ buf.drop n, rest.drop n, sched.tail, eager && (rest.drop n).isEmpty)
 
 /-- `io.ReadFull(conn, buf)` with `len(buf) = n`: all `n` bytes or an error -/
 def readFull (inp : List UInt8) (n : Int) : Res (List UInt8 × List UInt8) :=
